@@ -460,4 +460,21 @@ def specAccounts (c : Cfg) (pre post : FS) (cfg : AccCfg) (runAsOut : Text) : Li
        if loadGroups (readText c post groupPath) = some wantG then []
        else [tr "group"])
 
+/-! ## the lists of a configuration on their way to the build (`ImageConfiguration.MergeInto`)
+
+`apko build` never hands the declared configuration itself to the build: `LockImageConfiguration` makes the
+per-architecture copy with `input.MergeInto(&copied)` and an `include:`d file is merged into the including one with the
+same function.  For every list (`paths`, `volumes`, `accounts.users`, `accounts.groups`, and the lists of the contents)
+the function is `slices.Concat(included, own)`: nothing is dropped, reordered or merged, repetitions stay. -/
+
+/-- `target.X = slices.Concat(ic.X, target.X)` -/
+def mergeLists {α : Type} (included own : List α) : List α := included ++ own
+
+/-- the per-architecture copy of `LockImageConfiguration`: the declared list merged into an empty configuration -/
+def lockCopy {α : Type} (declared : List α) : List α := mergeLists declared []
+
+/-- the path mutations the build applies for a configuration with an `include:`d one, through the CLI:
+first the include is merged into the including file, then the result is copied per architecture -/
+def buildPaths (included own : List Mutation) : List Mutation := lockCopy (mergeLists included own)
+
 end Apko.Accounts
